@@ -196,3 +196,32 @@ func VerifH_C15_Delegation() {
 		verifrt.Assert(len(made) == 2, "one bucket per subnet")
 	}
 }
+
+// VerifH_C15_CrowdedTableIsolation: isolation must not depend on how many OTHER subnets the table currently tracks.
+// The table holds any number (0 .. 2^31) of entries of other subnets (a symbolic size, seen by the code through
+// Size()); two clients arrive: each is charged to a bucket created with the configured rate and burst, the two share
+// a bucket exactly when they are in the same subnet, and the bucket found under the client's own subnet key afterwards
+// is the one that was charged — a fresh subnet never lands in somebody else's bucket, however crowded the table is.
+func VerifH_C15_CrowdedTableIsolation() {
+	var calls []*rate.Limiter
+	verifrt.Redirect("(*golang.org/x/time/rate.Limiter).AllowN", func(l *rate.Limiter, now time.Time, n int) bool {
+		calls = append(calls, l)
+		return verifrt.Bool("verdict")
+	})
+	o := ClientLimiterOpts{Limit: 5, Burst: 7, V4Mask: 24, V6Mask: 48}
+	cl := &ClientLimiter{opts: o, m: xsync.NewMapOf[netip.Addr, *e]()}
+	others := verifrt.IntRange("others", 0, 1<<31)
+	verifrt.MapExtraSize(cl.m, others)
+	a, ua := vAddr4("a")
+	b, ub := vAddr4("b")
+	now := time.Now()
+	cl.AllowN(a, now, 1)
+	cl.AllowN(b, now, 1)
+	verifrt.Reach("charged")
+	verifrt.Assert(len(calls) == 2, "every request consults exactly one bucket")
+	same := ua>>8 == ub>>8
+	verifrt.Assert((calls[0] == calls[1]) == same, "two clients share a bucket exactly when they are in the same subnet, however many other subnets are tracked")
+	ea, oka := cl.m.Load(cl.mask(a))
+	eb, okb := cl.m.Load(cl.mask(b))
+	verifrt.Assert(oka && okb && ea.l == calls[0] && eb.l == calls[1], "each client's bucket is the one kept under its own subnet key")
+}
